@@ -224,22 +224,25 @@ theorem newFormatSpec_rule' (v : Version) (verb : Nat) (prec : Option Nat) (e : 
     cases v <;> cases prec <;> simp [genNewFormatSpec, Gen.V1.newFormatSpec, Gen.V2.newFormatSpec, Gen.V3.newFormatSpec]
   by_cases c5 : verb = 103
   · subst c5
-    cases v <;> rcases prec with _ | p <;> 
+    cases v <;> rcases prec with _ | p <;>
     simp [genNewFormatSpec, Gen.V1.newFormatSpec, Gen.V2.newFormatSpec, Gen.V3.newFormatSpec, Gen.V3.formatSpecForG,
       Gen.V1.bigExponent, Gen.V2.bigExponent, Gen.V3.bigExponent] <;>
-    (by_cases hp : p = 0 <;> simp [hp])
+    (try (by_cases hp : p = 0 <;> simp [hp])) <;>
+    (try grind)
   by_cases c6 : verb = 118
   · subst c6
-    cases v <;> rcases prec with _ | p <;> 
+    cases v <;> rcases prec with _ | p <;>
     simp [genNewFormatSpec, Gen.V1.newFormatSpec, Gen.V2.newFormatSpec, Gen.V3.newFormatSpec, Gen.V3.formatSpecForG,
       Gen.V1.bigExponent, Gen.V2.bigExponent, Gen.V3.bigExponent] <;>
-    (by_cases hp : p = 0 <;> simp [hp])
+    (try (by_cases hp : p = 0 <;> simp [hp])) <;>
+    (try grind)
   by_cases c7 : verb = 71
   · subst c7
-    cases v <;> rcases prec with _ | p <;> 
+    cases v <;> rcases prec with _ | p <;>
     simp [genNewFormatSpec, Gen.V1.newFormatSpec, Gen.V2.newFormatSpec, Gen.V3.newFormatSpec, Gen.V3.formatSpecForG,
       Gen.V1.bigExponent, Gen.V2.bigExponent, Gen.V3.bigExponent] <;>
-    (by_cases hp : p = 0 <;> simp [hp])
+    (try (by_cases hp : p = 0 <;> simp [hp])) <;>
+    (try grind)
   have d1 : ¬ ((verb : Int) = 102) := by omega
   have d2 : ¬ ((verb : Int) = 70) := by omega
   have d3 : ¬ ((verb : Int) = 101) := by omega
@@ -310,7 +313,7 @@ theorem numString_eq (v : Version) (e : Int) (ds : List Nat) :
   · cases v <;> simp [stringSpec, gPrecisionOf, Gen.V1.gPrecision, Gen.V2.gPrecision, Gen.V3.gPrecision, Gen.V3.formatSpecForG]
   · cases v <;> simp [stringSpec, Gen.V3.formatSpecForG, Gen.V3.gPrecision]
   · cases v <;> simp [stringSpec, Gen.V3.formatSpecForG, Gen.V3.gPrecision, genBigExponent, Gen.V1.bigExponent, Gen.V2.bigExponent, Gen.V3.bigExponent]
-    all_goals first | omega | rfl
+    all_goals first | omega | rfl | grind
   · intro; cases v <;> simp [stringSpec, Gen.V3.formatSpecForG, Gen.V3.gPrecision]
   · exact formatRule_guard _ _ _ _ _ _ _ hr
 
